@@ -44,6 +44,14 @@ def _run(seed):
         after(m)
 
 
+def _pams_failure(e):
+    """an exception raised inside pams on one of these (valid) histories: a failure of the code under test, not of the driver"""
+    import traceback
+    tb = traceback.extract_tb(e.__traceback__)
+    where = next((f"{fr.filename.split('/')[-1]}:{fr.lineno} in {fr.name}" for fr in reversed(tb) if "/pams/" in fr.filename), None)
+    return None if where is None else f"a valid single-market history makes the market raise {type(e).__name__}({str(e)[:80]}) at {where}"
+
+
 def search(seed, tier, obligation, hints):
     n = 1500 if tier == "quick" else 20000
     for i in range(seed * 1000000, seed * 1000000 + n):
@@ -51,6 +59,11 @@ def search(seed, tier, obligation, hints):
             _run(i)
         except Found as e:
             return {"found": True, "input": {"seed": i, "driver": "market_history / deep_book_history + depth oracle"}, "observed": {"clause": str(e)}, "witness_key": "depth|" + str(e).split("=")[0].strip(), "cases": i - seed * 1000000 + 1}
+        except Exception as e:      # noqa
+            why = _pams_failure(e)
+            if why is None:
+                raise
+            return {"found": True, "input": {"seed": i, "driver": "market_history / deep_book_history + depth oracle"}, "observed": {"clause": why}, "witness_key": "depth|raises", "cases": i - seed * 1000000 + 1}
     return {"found": False, "cases": n}
 
 
@@ -59,4 +72,9 @@ def replay(inp):
         _run(inp["seed"])
     except Found as e:
         return {"violated": True, "clause": str(e)}
+    except Exception as e:      # noqa
+        why = _pams_failure(e)
+        if why is None:
+            raise
+        return {"violated": True, "clause": why}
     return {"violated": False}
